@@ -569,6 +569,10 @@ REWRITE_RULES = {
         # ToOwned::to_owned of the DEFAULT value constant has no vstd specification: trusted wrapper with the same body
         (re.compile(r'C::DEFAULT_VALUE\.to_owned\(\)'), r'verif_default_value::<C>()'),
     ],
+    'R24': [
+        # PartialEq::ne between the DEFAULT constant (Borrowed) and the value (Owned) has no vstd specification: trusted wrapper, same body
+        (re.compile(r'C::DEFAULT_VALUE\.ne\(value\)'), r'verif_default_ne::<C>(value)'),
+    ],
     'R3': [
         (re.compile(r'String::from_utf8\(([A-Za-z_][A-Za-z0-9_]*)\)\.map_err\(\|e\| ErrorKind::FromUtf8Error\(e\)\.into\(\)\)'),
          r'verif_string_from_utf8(\1)'),
